@@ -121,6 +121,9 @@ func (e *Enc) instr(fr *Frame, b *ssa.BasicBlock, ins ssa.Instruction, guard T, 
 		}
 		e.storeAt(st, p, e.zeroValFor(et))
 		fr.vals[x] = p
+		if !x.Heap {
+			e.privateCells = append(e.privateCells, privateCell{p, et})
+		}
 	case *ssa.BinOp:
 		a, c := e.get(fr, x.X), e.get(fr, x.Y)
 		e.setVal(fr, x, e.binop(fr, x.Op, a, c, x.X.Type(), x.Y.Type(), x.Type(), guard, x.Pos()))
